@@ -9,7 +9,11 @@ package main
 
 import (
 	"fmt"
+	"go/ast"
+	"go/parser"
+	"go/token"
 	"os"
+	"time"
 	"sort"
 	"strconv"
 	"strings"
@@ -19,6 +23,7 @@ import (
 	"github.com/BondMachineHQ/BondMachine/pkg/bminfo"
 	"github.com/BondMachineHQ/BondMachine/pkg/bmreqs"
 	"github.com/BondMachineHQ/BondMachine/pkg/bmstack"
+	"github.com/BondMachineHQ/BondMachine/pkg/bondgo"
 	"github.com/BondMachineHQ/BondMachine/pkg/bondmachine"
 	"github.com/BondMachineHQ/BondMachine/pkg/procbuilder"
 )
@@ -204,6 +209,18 @@ func main() {
 			fmt.Printf("CP %d rsize=%d R=%d N=%d M=%d L=%d O=%d wordsize=%d maxword=%d opbits=%d ops=%s rom=%s name=%s\n", i, m.Rsize, m.R, m.N, m.M, m.L, m.O, m.WordSize, m.Max_word(), m.Opcodes_bits(),
 				strings.Join(ops, ","), strings.Join(m.Program.Slocs, ","), bi.CPNames[i])
 		}
+	case "bondgo":
+		// bondgo <source.go> <rsize> : run the real Go-subset compiler the way cmd/bondgo does (multi-processor mode)
+		// and describe the emitted machine; a watchdog reports a compiler that does not finish
+		rsize := atoi(os.Args[3])
+		done := make(chan string, 1)
+		go func() { done <- runBondgo(os.Args[2], rsize) }()
+		select {
+		case out := <-done:
+			fmt.Print(out)
+		case <-time.After(60 * time.Second):
+			fmt.Println("BONDGO-TIMEOUT the compiler did not finish within 60 s")
+		}
 	case "bmfull":
 		// bmfull "<rsize>;<N>:<M>:<R>:<O>:<op+op+...>,...;I,O,P0,...;bonds" : every module of the machine
 		parts := strings.Split(os.Args[2], ";")
@@ -299,4 +316,103 @@ func bmSpec(spec string) *bondmachine.Bondmachine {
 		}
 	}
 	return bm
+}
+
+func runBondgo(file string, rsize int) string {
+	var sb strings.Builder
+	config := new(bondgo.BondgoConfig)
+	config.Mpm = true
+	config.Rsize = uint8(rsize)
+	config.Basic_type = "uint" + strconv.Itoa(rsize)
+	config.Basic_chantype = "chan uint" + strconv.Itoa(rsize)
+	fset := token.NewFileSet()
+	f, err := parser.ParseFile(fset, file, nil, 0)
+	if err != nil {
+		return "BONDGO-ERROR parse: " + err.Error() + "\n"
+	}
+	usagedone := make(chan bool)
+	assignerdone := make(chan bool)
+	results := new(bondgo.BondgoResults)
+	results.Init_Results(config)
+	messages := new(bondgo.BondgoMessages)
+	messages.Init_Messages(config)
+	reqmnts := new(bondgo.BondgoRequirements)
+	reqmnts.Init_Requirements(config)
+	usagenotify := make(chan bondgo.UsageNotify)
+	go reqmnts.Usage_Monitor(usagenotify, usagedone)
+	run := new(bondgo.BondgoRuninfo)
+	run.Init_Runinfo(config)
+	varreq := make(chan bondgo.VarReq)
+	varans := make(chan bondgo.VarAns)
+	go run.Var_assigner(varreq, varans, usagenotify, assignerdone)
+	functs := new(bondgo.BondgoFunctions)
+	functs.Init_Functions(config, messages)
+	vars := make(map[string]bondgo.VarCell)
+	returns := make([]bondgo.VarCell, 0)
+	bgmain := &bondgo.BondgoCheck{results, config, reqmnts, run, messages, functs, usagenotify, varreq, varans, nil, nil, vars, returns, "", "", "device_0", 0}
+	bgmain.Used <- bondgo.UsageNotify{bondgo.TR_PROC, 0, bondgo.C_DEVICE, bgmain.CurrentDevice, bondgo.I_NIL}
+	ast.Walk(functs, f)
+	if !bgmain.Is_faulty() {
+		executable := false
+		for ifuncname, ifunc := range functs.Functions {
+			if ifuncname == "main" {
+				ast.Walk(bgmain, ifunc.Body)
+				executable = true
+				break
+			}
+		}
+		if !executable {
+			bgmain.Set_faulty("main function not found.")
+		}
+		for procid, rout := range bgmain.Program {
+			bgmain.Used <- bondgo.UsageNotify{bondgo.TR_PROC, procid, bondgo.C_ROMSIZE, bondgo.S_NIL, len(rout.Lines)}
+		}
+		// barrier: Var_assigner answers a request BEFORE it notifies the usage monitor, so the notification of the
+		// last allocation can still be pending here; cmd/bondgo then sends TR_EXIT, the monitor may take that first
+		// and exit, and assigner and main block forever (the shutdown race named by property C12, met natively
+		// while building this driver). A no-op request/answer round trip makes the assigner deliver it first.
+		gent, _ := bondgo.Type_from_string(bgmain.Basic_type)
+		bgmain.Reqs <- bondgo.VarReq{bondgo.REQ_REMOVE, 0, bondgo.VarCell{gent, bondgo.INPUT, 0, 0, 0, 0, 0, 0}}
+		<-bgmain.Answers
+		bgmain.Used <- bondgo.UsageNotify{bondgo.TR_EXIT, 0, 0, bondgo.S_NIL, bondgo.I_NIL}
+		<-usagedone
+		bgmain.Reqs <- bondgo.VarReq{bondgo.REQ_EXIT, 0, bondgo.VarCell{gent, 0, 0, 0, 0, 0, 0, 0}}
+		<-assignerdone
+	}
+	if bgmain.Is_faulty() {
+		return "BONDGO-ERROR compile: " + strings.ReplaceAll(bgmain.Dump_log(), "\n", " | ") + "\n"
+	}
+	for i := range bgmain.Program {
+		sb.WriteString("ASM " + strconv.Itoa(i) + " " + strings.ReplaceAll(strings.TrimSpace(bgmain.Write_assembly(i)), "\n", " ; ") + "\n")
+	}
+	bm, _, err := bgmain.Create_Bondmachine(rsize, "device_0")
+	if err != nil {
+		return sb.String() + "BONDGO-ERROR machine: " + err.Error() + "\n"
+	}
+	sb.WriteString(describeBM(bm, nil))
+	return sb.String()
+}
+
+func describeBM(bm *bondmachine.Bondmachine, names map[int]string) string {
+	var sb strings.Builder
+	fmt.Fprintf(&sb, "BM rsize=%d inputs=%d outputs=%d processors=%d\n", bm.Rsize, bm.Inputs, bm.Outputs, len(bm.Processors))
+	fmt.Fprintf(&sb, "LINKS %v\n", bm.Links)
+	var ii, oo []string
+	for _, b := range bm.Internal_inputs {
+		ii = append(ii, b.String())
+	}
+	for _, b := range bm.Internal_outputs {
+		oo = append(oo, b.String())
+	}
+	fmt.Fprintf(&sb, "IN %s\nOUT %s\n", strings.Join(ii, ","), strings.Join(oo, ","))
+	for i, d := range bm.Processors {
+		m := bm.Domains[d]
+		var ops []string
+		for _, op := range m.Op {
+			ops = append(ops, op.Op_get_name())
+		}
+		fmt.Fprintf(&sb, "CP %d rsize=%d R=%d N=%d M=%d L=%d O=%d wordsize=%d maxword=%d opbits=%d ops=%s rom=%s name=%s\n", i, m.Rsize, m.R, m.N, m.M, m.L, m.O, m.WordSize, m.Max_word(), m.Opcodes_bits(),
+			strings.Join(ops, ","), strings.Join(m.Program.Slocs, ","), names[i])
+	}
+	return sb.String()
 }
